@@ -29,15 +29,58 @@
       (`callIn`: no recursion, no forward reference — the translator fails closed on both); defaults are evaluated at
       definition time in the empty environment;
     * anything the interpreter does not model evaluates to the error `PyErr.other "unsupported:…"`, never to a value.
+
+  Extension for stateful and string-processing leaf functions (`xpath/_cache.py`, `Tags.isValidAttributeName`; the ties
+  are `Props/C15Code.lean`, `Props/C08Code.lean`).  Further assumptions:
+
+    * further values: Python lists and dicts of model values (`list`, `dict`: a dict is an insertion-ordered association
+      list whose keys are hashable model values — None, text, numbers — compared with `==`), a `threading.Lock` (`lock held`),
+      an exception object bound by `except T as name` (`caught`), and ONE kind of object with attributes: `obj fields`, the
+      `self` of a method (a record of fields each holding a model value, a list, a dict or a lock);
+    * mutation exists at statement level only, and only through `self`: `self.f.m(args)` as an expression statement with
+      `m` one of `append`, `remove` (raising `ValueError`), `acquire`, `release`; `self.f = e`; `self.f[k] = v`;
+      `del self.f[k]` (raising `KeyError`).  A mutating method in expression position is `unsupported`.  Values are copied
+      (no heap): so that this is Python's meaning, a list/dict may be bound to a variable, stored in a field or iterated
+      only when no other name can reach the same object — the right-hand side must CREATE it (a slice), or the guard
+      `aliasOK` makes the statement `unsupported`; the translator refuses every use of `self` other than `self.<name>`;
+    * a lock is a boolean: `acquire` of a held lock (a deadlock in one thread) and `release` of a free one are errors;
+    * `while` runs on the fuel `Ctx.fuel` (per loop entry); running out of it is `Res.abort`, which no handler catches
+      and which ends the call with an `unsupported` error — the theorems show a bound that suffices; `for` iterates over
+      the items the iterable has when the loop starts (text: its characters; list/tuple: items; dict: keys);
+    * module-level integer constants are read at call time: `Expr.global` looks them up in `Ctx.globals` (parameters of
+      the theorems); a method of `self` that is not dumped (`getKeyForExpressionStr`, a static method around sha1) is a
+      parameter too: `Ctx.selfMeth`;
+    * `+ - *` between numbers only; `e[i]` on text/list/tuple (negative indices as Python; `IndexError`) and dict
+      (`KeyError`); `e[:n]`, `e[n:]` are the hand model's `Cache.sliceTo/sliceFrom` (Python's clamping rules);
+    * `str.isalpha()/isalnum()` are ASCII-exact (`a-z A-Z`, and `0-9`), as the hand models of
+      `Tags.isValidAttributeName` are: Python's are Unicode-aware, so the tie is exact on ASCII names only (C08 says so);
+    * local lists and dicts (`SpecialAttributes.py`: `camelCaseToDashName`, `styleToDict`) change at statement level too:
+      `x.append(v)` / `x.remove(v)` as an expression statement (`Stmt.varCall`), `x[k] = v` (`Stmt.setItemVar`).  Such a value
+      has ONE name (guard `aliasOK`: it must come from an expression that creates it — a slice, `[]`, `{}`, `list(x)` when the
+      module has no function `list`, `text.split(sep)`), and `for` over a variable holding a list checks after every
+      iteration that the variable still holds the list it started with (else `Res.abort`): Python iterates over the live list;
+    * `list(x)`, `str.strip()` (all of `str.isspace()`, the shared `strip`), `str.split(c)` / `str.index(c)` for one character,
+      `str.isupper()` (ASCII), `sep.join(list of texts)`.
 -/
 import AHP.Model.Basic
 import AHP.Model.Conv
+import AHP.Model.Cache
 namespace AHP.PyAst
 open AHP AHP.Gen AHP.Conv
 
 /-! ### values -/
 
 deriving instance DecidableEq for AHP.Conv.Elem
+-- so that a concrete run of the interpreter can be compared with its expected result by `decide`
+deriving instance DecidableEq for Except
+
+/-- What a field of `self` can hold. -/
+inductive Field where
+  | py (v : PyV)                   -- a model value
+  | list (vs : List PyV)           -- a Python list of model values
+  | dict (kvs : List (PyV × PyV))  -- a dict: insertion-ordered association list
+  | lock (held : Bool)             -- a threading.Lock
+  deriving DecidableEq, Repr, Inhabited
 
 inductive Val where
   | py (v : PyV)                   -- a value of the hand model
@@ -47,7 +90,33 @@ inductive Val where
   | excInst (name : String)        -- an instance of that exception class
   | cls (name : String)            -- any other class
   | elem (e : Elem)                -- an element (AdvancedTag), as the hand model's element state
+  | list (vs : List PyV)           -- a Python list
+  | dict (kvs : List (PyV × PyV))  -- a Python dict (insertion ordered)
+  | lock (held : Bool)             -- a threading.Lock
+  | caught (e : PyErr)             -- the exception object bound by `except T as name`
+  | obj (fields : List (String × Field))   -- `self`: an object with attributes
   deriving DecidableEq, Repr, Inhabited
+
+def Field.toVal : Field → Val
+  | .py v => .py v
+  | .list vs => .list vs
+  | .dict kvs => .dict kvs
+  | .lock h => .lock h
+
+def Val.toField : Val → Option Field
+  | .py v => some (.py v)
+  | .list vs => some (.list vs)
+  | .dict kvs => some (.dict kvs)
+  | .lock h => some (.lock h)
+  | _ => none
+
+/-- Objects that can change after they were made (so that two names for one of them matter). -/
+def Val.mutable : Val → Bool
+  | .list _ => true
+  | .dict _ => true
+  | .lock _ => true
+  | .obj _ => true
+  | _ => false
 
 def unsupported (what : String) : PyErr := .other ("unsupported:" ++ what)
 
@@ -55,6 +124,8 @@ def unsupported (what : String) : PyErr := .other ("unsupported:" ++ what)
 def Val.truthy : Val → Bool
   | .py v => Conv.truthy v
   | .tuple vs => !vs.isEmpty
+  | .list vs => !vs.isEmpty
+  | .dict kvs => !kvs.isEmpty
   | _ => true
 
 /-- `a == b` on model values. -/
@@ -82,6 +153,13 @@ def pyEq (x y : Val) : Except PyErr Bool :=
   | .cls a => (match y with | .cls b => .ok (a = b) | _ => .ok false)
   | .excInst _ => (match y with | .excInst _ => .error (unsupported "==") | _ => .ok false)
   | .elem _ => (match y with | .elem _ => .error (unsupported "==") | _ => .ok false)
+  | .list a => (match y with
+      | .list b => .ok (a.length = b.length && (a.zip b).all (fun p => pyEqV p.1 p.2))
+      | _ => .ok false)
+  | .dict _ => (match y with | .dict _ => .error (unsupported "==") | _ => .ok false)
+  | .lock _ => (match y with | .lock _ => .error (unsupported "==") | _ => .ok false)
+  | .caught _ => (match y with | .caught _ => .error (unsupported "==") | _ => .ok false)
+  | .obj _ => (match y with | .obj _ => .error (unsupported "==") | _ => .ok false)
 
 /-- Objects of which there is exactly one: `is` is then structural equality of the representation. -/
 def Val.unique : Val → Bool
@@ -114,7 +192,15 @@ def pyOrd (rel : Int → Int → Bool) (x y : Val) : Except PyErr Bool :=
      | none => .error .typeError)
   | none => if isText x && isText y then .error (unsupported "<") else .error .typeError
 
-/-- `x in c`: `c` a tuple (any element equal to `x`). -/
+/-- Values that can be dict keys here: `None`, text, numbers (hash and `==` agree on them). -/
+def hashable : PyV → Bool
+  | .none => true
+  | .str _ => true
+  | .int _ => true
+  | .bool _ => true
+  | _ => false
+
+/-- `x in c`: `c` a tuple or list (any element equal to `x`), or a dict (any key equal to the hashable `x`). -/
 def pyIn (x c : Val) : Except PyErr Bool :=
   match c with
   | .tuple vs => (match x with
@@ -122,6 +208,12 @@ def pyIn (x c : Val) : Except PyErr Bool :=
       | .excInst _ => .error (unsupported "in")
       | .elem _ => .error (unsupported "in")
       | _ => .ok false)
+  | .list vs => (match x with
+      | .py a => .ok (vs.any (fun e => pyEqV a e))
+      | _ => .error (unsupported "in"))
+  | .dict kvs => (match x with
+      | .py a => if hashable a then .ok (kvs.any (fun e => pyEqV a e.1)) else .error (unsupported "in")
+      | _ => .error (unsupported "in"))
   | _ => .error (unsupported "in")
 
 inductive CmpOp where
@@ -157,7 +249,15 @@ def typeName : PyV → String
   | .ancestor _ => "AdvancedTag"
   | .opaque w => w
 
-/-- `x.a` — `__class__` of anything, `tagName` of an element. -/
+/-- The class name of an exception of the hand model's enum (`excOf (errName e) = e` for the four named ones). -/
+def errName : PyErr → String
+  | .valueError => "ValueError"
+  | .typeError => "TypeError"
+  | .keyError => "KeyError"
+  | .indexSizeError => "IndexSizeErrorException"
+  | .other n => n
+
+/-- `x.a` — `__class__` of anything, a field of `self`, `tagName` of an element. -/
 def getAttr (x : Val) (a : String) : Except PyErr Val :=
   if a = "__class__" then
     match x with
@@ -168,11 +268,20 @@ def getAttr (x : Val) (a : String) : Except PyErr Val :=
     | .excType _ => .ok (.cls "type")
     | .cls _ => .ok (.cls "type")
     | .elem _ => .ok (.cls "AdvancedTag")
-  else if a = "tagName" then
+    | .list _ => .ok (.cls "list")
+    | .dict _ => .ok (.cls "dict")
+    | .lock _ => .ok (.cls "lock")
+    | .caught e => .ok (.excType (errName e))
+    | .obj _ => .ok (.cls "object")
+  else
     match x with
-    | .elem e => .ok (.py (.str e.tag.toList))
-    | _ => .error (unsupported "attribute tagName")
-  else .error (unsupported ("attribute " ++ a))
+    | .obj fs => (match fs.lookup a with | some fv => .ok fv.toVal | none => .error (.other "AttributeError"))
+    | _ =>
+      if a = "tagName" then
+        match x with
+        | .elem e => .ok (.py (.str e.tag.toList))
+        | _ => .error (unsupported "attribute tagName")
+      else .error (unsupported ("attribute " ++ a))
 
 /-- `s.replace(a, b)` for a non-empty `a` (left to right, non-overlapping), with fuel = length of `s`. -/
 def replaceFuel (a b : Str) : Nat → Str → Str
@@ -185,8 +294,41 @@ def replaceFuel (a b : Str) : Nat → Str → Str
 
 def replaceAll (a b s : Str) : Str := replaceFuel a b (s.length + 1) s
 
-/-- `x.m(args)` — `str.lower()`, `str.replace(old, new)` with a non-empty `old`; `em.getAttribute(name[, default])`,
-`em.hasAttribute(name)` (the hand model's, over the generated tables). -/
+/-! ASCII character classes: what `str.isalpha()` / `str.isalnum()` are taken to be (exact on ASCII text only). -/
+def asciiAlpha (c : Char) : Bool := ('a' ≤ c && c ≤ 'z') || ('A' ≤ c && c ≤ 'Z')
+def asciiDigit (c : Char) : Bool := '0' ≤ c && c ≤ '9'
+def asciiAlnum (c : Char) : Bool := asciiAlpha c || asciiDigit c
+def asciiUpper (c : Char) : Bool := 'A' ≤ c && c ≤ 'Z'
+def asciiLower (c : Char) : Bool := 'a' ≤ c && c ≤ 'z'
+
+/-- the items of a list when all of them are texts (`sep.join(items)` raises `TypeError` otherwise) -/
+def strItems : List PyV → Option (List Str)
+  | [] => some []
+  | .str w :: r => (match strItems r with | some ws => some (w :: ws) | none => none)
+  | _ :: _ => none
+
+/-! ### dicts: insertion-ordered association lists, keys compared with `==` -/
+
+def dGet : List (PyV × PyV) → PyV → Option PyV
+  | [], _ => none
+  | (k', v) :: rest, k => if pyEqV k' k then some v else dGet rest k
+
+/-- `d[k] = v`: an existing key keeps its position (and its first spelling). -/
+def dSet : List (PyV × PyV) → PyV → PyV → List (PyV × PyV)
+  | [], k, v => [(k, v)]
+  | (k', v') :: rest, k, v => if pyEqV k' k then (k', v) :: rest else (k', v') :: dSet rest k v
+
+/-- `del d[k]` once the key is known to be there. -/
+def dDel (d : List (PyV × PyV)) (k : PyV) : List (PyV × PyV) := d.filter (fun p => !pyEqV p.1 k)
+
+/-- `l.remove(x)`: the list without its first item equal to `x`; `none` when there is none (`ValueError`). -/
+def removeFirst (x : PyV) : List PyV → Option (List PyV)
+  | [] => none
+  | a :: r => if pyEqV a x then some r else (match removeFirst x r with | some r' => some (a :: r') | none => none)
+
+/-- `x.m(args)` without effect on `x` — `str.lower()`, `str.replace(old, new)` with a non-empty `old`, `str.isalpha()`,
+`str.isalnum()` (ASCII); `dict.get(key[, default])`; `em.getAttribute(name[, default])`, `em.hasAttribute(name)` (the hand
+model's, over the generated tables).  The mutating methods of lists and locks exist as statements only (`mutCall`). -/
 def callMethod (x : Val) (m : String) (args : List Val) : Except PyErr Val :=
   match x with
   | .py (.str s) =>
@@ -194,6 +336,35 @@ def callMethod (x : Val) (m : String) (args : List Val) : Except PyErr Val :=
       (match args with
        | [] => .ok (.py (.str (lower s)))
        | _ => .error .typeError)
+    else if m = "isalpha" then
+      (match args with
+       | [] => .ok (.py (.bool (!s.isEmpty && s.all asciiAlpha)))
+       | _ => .error .typeError)
+    else if m = "isalnum" then
+      (match args with
+       | [] => .ok (.py (.bool (!s.isEmpty && s.all asciiAlnum)))
+       | _ => .error .typeError)
+    else if m = "strip" then
+      (match args with
+       | [] => .ok (.py (.str (strip s)))
+       | _ => .error (unsupported "strip with an argument"))
+    else if m = "isupper" then
+      (match args with
+       | [] => .ok (.py (.bool (s.any asciiUpper && s.all (fun c => !asciiLower c))))
+       | _ => .error .typeError)
+    else if m = "split" then
+      (match args with
+       | [.py (.str [c])] => .ok (.list ((splitChar c s).map .str))
+       | _ => .error (unsupported "split on something else than one character"))
+    else if m = "index" then
+      (match args with
+       | [.py (.str [c])] => if c ∈ s then .ok (.py (.int (s.idxOf c))) else .error .valueError
+       | _ => .error (unsupported "index of something else than one character"))
+    else if m = "join" then
+      (match args with
+       | [.list vs] => (match strItems vs with | some ws => .ok (.py (.str (joinWith s ws))) | none => .error .typeError)
+       | [.tuple vs] => (match strItems vs with | some ws => .ok (.py (.str (joinWith s ws))) | none => .error .typeError)
+       | _ => .error (unsupported "join of something else than a list"))
     else if m = "replace" then
       (match args with
        | [.py (.str a), .py (.str b)] =>
@@ -211,7 +382,110 @@ def callMethod (x : Val) (m : String) (args : List Val) : Except PyErr Val :=
        | [.py (.str n)] => .ok (.py (.bool (e.hasAttribute (String.ofList n))))
        | _ => .error (unsupported "hasAttribute"))
     else .error (unsupported ("method " ++ m))
+  | .dict kvs =>
+    if m = "get" then
+      (match args with
+       | [.py k] => if hashable k then .ok (.py ((dGet kvs k).getD .none)) else .error (unsupported "dict key")
+       | [.py k, .py d] => if hashable k then .ok (.py ((dGet kvs k).getD d)) else .error (unsupported "dict key")
+       | _ => .error (unsupported "dict.get"))
+    else .error (unsupported ("method " ++ m))
+  | .list _ => .error (unsupported ("method " ++ m ++ " of a list in an expression"))
+  | .lock _ => .error (unsupported ("method " ++ m ++ " of a lock in an expression"))
+  | .obj _ => .error (unsupported ("method " ++ m ++ " of an object"))
   | _ => .error (.other "AttributeError")
+
+/-- `self.f.m(args)` as a statement: the new content of the field.  `list.append(x)`, `list.remove(x)` (`ValueError` when
+no item equals `x`), `lock.acquire()` (a held lock: this thread would wait for ever), `lock.release()` (a free lock:
+`RuntimeError`). -/
+def mutCall (fv : Field) (m : String) (args : List Val) : Except PyErr Field :=
+  match fv with
+  | .list vs =>
+    if m = "append" then
+      (match args with
+       | [.py v] => .ok (.list (vs ++ [v]))
+       | [_] => .error (unsupported "list of objects")
+       | _ => .error .typeError)
+    else if m = "remove" then
+      (match args with
+       | [.py v] => (match removeFirst v vs with | some vs' => .ok (.list vs') | none => .error .valueError)
+       | [_] => .error (unsupported "list of objects")
+       | _ => .error .typeError)
+    else .error (unsupported ("statement method " ++ m))
+  | .lock h =>
+    if m = "acquire" then
+      (match args with
+       | [] => if h then .error (unsupported "acquire of a held lock") else .ok (.lock true)
+       | _ => .error (unsupported "acquire with arguments"))
+    else if m = "release" then
+      (match args with
+       | [] => if h then .ok (.lock false) else .error (.other "RuntimeError")
+       | _ => .error .typeError)
+    else .error (unsupported ("statement method " ++ m))
+  | _ => .error (unsupported ("statement method " ++ m))
+
+inductive BinOp where
+  | add | sub | mul
+  deriving DecidableEq, Repr, Inhabited
+
+/-- `a + b`, `a - b`, `a * b`: between numbers only (concatenation and repetition are refused). -/
+def pyBinop (op : BinOp) (x y : Val) : Except PyErr Val :=
+  match numOf x with
+  | some a =>
+    (match numOf y with
+     | some b => .ok (.py (.int (match op with | .add => a + b | .sub => a - b | .mul => a * b)))
+     | none => .error (unsupported "arithmetic on something else than numbers"))
+  | none => .error (unsupported "arithmetic on something else than numbers")
+
+/-- Item `i` of a sequence, negative `i` counting from the end; `none`: `IndexError`. -/
+def seqItem (l : List α) (i : Int) : Option α :=
+  let n : Int := l.length
+  let j : Int := if i < 0 then i + n else i
+  if j < 0 then none else l[j.toNat]?
+
+/-- `x[i]` -/
+def pyIndex (x i : Val) : Except PyErr Val :=
+  match x with
+  | .py (.str s) =>
+    (match i with
+     | .py (.int n) => (match seqItem s n with | some c => .ok (.py (.str [c])) | none => .error (.other "IndexError"))
+     | _ => .error (unsupported "index"))
+  | .list vs =>
+    (match i with
+     | .py (.int n) => (match seqItem vs n with | some v => .ok (.py v) | none => .error (.other "IndexError"))
+     | _ => .error (unsupported "index"))
+  | .tuple vs =>
+    (match i with
+     | .py (.int n) => (match seqItem vs n with | some v => .ok (.py v) | none => .error (.other "IndexError"))
+     | _ => .error (unsupported "index"))
+  | .dict kvs =>
+    (match i with
+     | .py k => if hashable k then (match dGet kvs k with | some v => .ok (.py v) | none => .error .keyError)
+                else .error (unsupported "dict key")
+     | _ => .error (unsupported "dict key"))
+  | _ => .error (unsupported "index")
+
+/-- `x[:n]` (`front = true`) and `x[n:]` for an integer `n`: Python's rules, as `Cache.sliceTo` / `Cache.sliceFrom`. -/
+def pySlice (front : Bool) (x n : Val) : Except PyErr Val :=
+  match n with
+  | .py (.int k) =>
+    (match x with
+     | .list vs => .ok (.list (if front then Cache.sliceTo vs k else Cache.sliceFrom vs k))
+     | .tuple vs => .ok (.tuple (if front then Cache.sliceTo vs k else Cache.sliceFrom vs k))
+     | .py (.str s) => .ok (.py (.str (if front then Cache.sliceTo s k else Cache.sliceFrom s k)))
+     | _ => .error (unsupported "slice"))
+  | _ => .error (unsupported "slice bound")
+
+/-- `len(x)` -/
+def pyLen : Val → Except PyErr Val
+  | .py (.str s) => .ok (.py (.int s.length))
+  | .py (.tokens ws) => .ok (.py (.int ws.length))
+  | .list vs => .ok (.py (.int vs.length))
+  | .tuple vs => .ok (.py (.int vs.length))
+  | .dict kvs => .ok (.py (.int kvs.length))
+  | .py .none => .error .typeError
+  | .py (.int _) => .error .typeError
+  | .py (.bool _) => .error .typeError
+  | _ => .error (unsupported "len")
 
 /-- `f(args)` for a value `f`: instantiating an exception class. -/
 def callValue (f : Val) (_args : List Val) : Except PyErr Val :=
@@ -257,6 +531,17 @@ def builtin (parseInt : Str → Except PyErr Int) (f : String) (args : List Val)
     match args with
     | [a, b] => pyIsSubclass a b
     | _ => .error .typeError
+  else if f = "len" then
+    match args with
+    | [x] => pyLen x
+    | _ => .error .typeError
+  else if f = "list" then
+    match args with
+    | [] => .ok (.list [])
+    | [.py (.str s)] => .ok (.list (s.map (fun c => .str [c])))
+    | [.list vs] => .ok (.list vs)
+    | [.tuple vs] => .ok (.list vs)
+    | _ => .error (unsupported "list")
   else .error (.other "NameError")
 
 /-! ### syntax -/
@@ -277,7 +562,31 @@ inductive Expr where
   | callv (f : Expr) (args : List Expr)                 -- (f)(args): calling a value
   | attr (e : Expr) (a : String)                        -- e.a
   | meth (e : Expr) (m : String) (args : List Expr)     -- e.m(args)
+  | global (x : String)                                 -- a module-level integer constant, read at call time
+  | binop (op : BinOp) (a b : Expr)                     -- a + b, a - b, a * b
+  | index (e i : Expr)                                  -- e[i]
+  | sliceTo (e n : Expr)                                -- e[:n]
+  | sliceFrom (e n : Expr)                              -- e[n:]
+  | newList                                             -- []
+  | newDict                                             -- {}
+  | newLock                                             -- threading.Lock()
   deriving Repr, Inhabited
+
+/-- Does the expression CREATE the list it evaluates to (so that no other name reaches the same object)? -/
+def Expr.makesNew : Expr → Bool
+  | .sliceTo .. => true
+  | .sliceFrom .. => true
+  | .newList => true
+  | .newDict => true
+  | .newLock => true
+  | .call f _ => f = "list"         -- the builtin `list(x)` (the guard `aliasOK` checks that no function of the module hides it)
+  | .meth _ m _ => m = "split"      -- `text.split(sep)` (a method of `self` never returns a mutable object: `eval`)
+  | _ => false
+
+/-- Is the expression a plain local variable? -/
+def Expr.isVar : Expr → Bool
+  | .var _ => true
+  | _ => false
 
 mutual
 inductive Stmt where
@@ -288,8 +597,19 @@ inductive Stmt where
   | raise (e : Expr)                                    -- raise e
   | ifS (c : Expr) (thenB elseB : List Stmt)            -- if c: … else: …      (elif = an `ifS` in `elseB`)
   | tryS (body : List Stmt) (handlers : List Handler)   -- try: … except …: …
+  | whileS (c : Expr) (body : List Stmt)                -- while c: …                 (no `else`)
+  | forS (x : String) (it : Expr) (body : List Stmt)    -- for x in it: …             (no `else`)
+  | brk                                                 -- break
+  | cont                                                -- continue
+  | fieldCall (o f m : String) (args : List Expr)       -- o.f.m(args) as a statement (`o` is `self`)
+  | setAttr (o f : String) (e : Expr)                   -- o.f = e
+  | setItem (o f : String) (k v : Expr)                 -- o.f[k] = v
+  | delItem (o f : String) (k : Expr)                   -- del o.f[k]
+  | varCall (x m : String) (args : List Expr)           -- x.m(args) as a statement, x a local variable (a list)
+  | setItemVar (x : String) (k v : Expr)                -- x[k] = v, x a local variable (a dict)
 inductive Handler where
   | mk (type : Option String) (body : List Stmt)        -- `except:` (none) / `except T:` (some T)
+  | mkAs (type : String) (name : String) (body : List Stmt)   -- `except T as name:`
 end
 
 structure Fun where
@@ -301,10 +621,86 @@ structure Fun where
 
 abbrev Env := List (String × Val)
 
+/-- How a statement (list) ends. -/
+inductive Res where
+  | next                     -- fell through to the next statement
+  | ret (v : Val)            -- `return v`
+  | exc (e : PyErr)          -- an exception is propagating
+  | brk                      -- `break` looking for its loop
+  | cont                     -- `continue` looking for its loop
+  | abort (what : String)    -- the interpreter gives up (a `while` out of fuel): no handler catches this
+  deriving Repr, Inhabited
+
+/-- `while c: body` with `fuel` iterations at most (then `abort`). -/
+def whileLoop (cond : Env → Except PyErr Val) (body : Env → Env × Res) : Nat → Env → Env × Res
+  | 0, env => (env, .abort "while: out of fuel")
+  | fuel + 1, env =>
+    match cond env with
+    | .error e => (env, .exc e)
+    | .ok v =>
+      if v.truthy then
+        (match body env with
+         | (env', .next) => whileLoop cond body fuel env'
+         | (env', .cont) => whileLoop cond body fuel env'
+         | (env', .brk) => (env', .next)
+         | r => r)
+      else (env, .next)
+
+/-- `for x in items: body`, `bind` being the assignment to the loop variable.  `same env'` says that the list iterated over
+still is what it was when the loop started (Python iterates over the live list: this interpreter over the items it had at the
+start, which is the same thing as long as `same` holds whenever the next item is fetched); otherwise the interpreter gives up. -/
+def forLoop (bind : Env → Val → Env) (body : Env → Env × Res) (same : Env → Bool) : List Val → Env → Env × Res
+  | [], env => (env, .next)
+  | v :: vs, env =>
+    match body (bind env v) with
+    | (env', .next) => if same env' then forLoop bind body same vs env' else (env', .abort "for: the list iterated over was changed")
+    | (env', .cont) => if same env' then forLoop bind body same vs env' else (env', .abort "for: the list iterated over was changed")
+    | (env', .brk) => (env', .next)
+    | r => r
+
+/-- What a `for` loop iterates over: the characters of a text, the items of a list or tuple, the keys of a dict. -/
+def iterItems : Val → Option (List Val)
+  | .py (.str s) => some (s.map (fun c => .py (.str [c])))
+  | .py (.tokens ws) => some (ws.map (fun w => .py (.str w)))
+  | .list vs => some (vs.map .py)
+  | .tuple vs => some (vs.map .py)
+  | .dict kvs => some (kvs.map (fun p => .py p.1))
+  | _ => none
+
 structure Ctx where
   parseInt : Str → Except PyErr Int
   /-- the functions of the module that are visible: positional arguments, keyword arguments -/
   funs : String → Option (List Val → List (String × Val) → Except PyErr Val)
+  /-- iterations granted to each `while` loop -/
+  fuel : Nat := 0
+  /-- module-level constants, read at call time -/
+  globals : String → Option Val := fun _ => none
+  /-- methods of `self` that are not dumped (static methods around primitives), by name -/
+  selfMeth : String → Option (List Val → Except PyErr Val) := fun _ => none
+
+/-- `x = v` in an association list (the local variables; the fields of an object): an existing binding is replaced where
+it is, a new one is added at the end. -/
+def assocSet {α : Type} : List (String × α) → String → α → List (String × α)
+  | [], x, v => [(x, v)]
+  | (y, w) :: r, x, v => if y = x then (x, v) :: r else (y, w) :: assocSet r x v
+
+/-- May the value `v` of the expression `e` get a further name?  Not when it is a mutable object that `e` did not create
+(`list(x)` creates one when `list` is the builtin, i.e. no function of the module has that name). -/
+def aliasOK (cx : Ctx) (e : Expr) (v : Val) : Bool :=
+  !v.mutable || (e.makesNew && (match e with | .call f _ => (cx.funs f).isNone | _ => true))
+
+/-- The field `o.f`. -/
+def getField (env : Env) (o f : String) : Except PyErr Field :=
+  match env.lookup o with
+  | some (.obj fs) => (match fs.lookup f with | some fv => .ok fv | none => .error (.other "AttributeError"))
+  | some _ => .error (unsupported "attribute of something else than self")
+  | none => .error (.other "UnboundLocalError")
+
+/-- `o.f = fv` (creating the field when it is new). -/
+def putField (env : Env) (o f : String) (fv : Field) : Env × Bool :=
+  match env.lookup o with
+  | some (.obj fs) => (assocSet env o (.obj (assocSet fs f fv)), true)
+  | _ => (env, false)
 
 def toTuple : List Val → Except PyErr Val
   | vs => if vs.all (fun v => match v with | .py _ => true | _ => false)
@@ -349,7 +745,39 @@ def eval (cx : Ctx) (env : Env) : Expr → Except PyErr Val
   | .meth e m args =>
     (match eval cx env e with
      | .error err => .error err
-     | .ok x => (match evalList cx env args with | .error err => .error err | .ok vs => callMethod x m vs))
+     | .ok x =>
+       (match evalList cx env args with
+        | .error err => .error err
+        | .ok vs =>
+          (match x with
+           | .obj _ =>
+             (match cx.selfMeth m with
+              | some g =>
+                (match g vs with
+                 | .ok r => if r.mutable then .error (unsupported "a method of self returning a mutable object") else .ok r
+                 | .error err => .error err)
+              | none => .error (.other "AttributeError"))
+           | _ => callMethod x m vs)))
+  | .global x => (match cx.globals x with | some v => .ok v | none => .error (.other "NameError"))
+  | .binop op a b =>
+    (match eval cx env a with
+     | .error e => .error e
+     | .ok x => (match eval cx env b with | .error e => .error e | .ok y => pyBinop op x y))
+  | .index e i =>
+    (match eval cx env e with
+     | .error err => .error err
+     | .ok x => (match eval cx env i with | .error err => .error err | .ok y => pyIndex x y))
+  | .sliceTo e n =>
+    (match eval cx env e with
+     | .error err => .error err
+     | .ok x => (match eval cx env n with | .error err => .error err | .ok y => pySlice true x y))
+  | .sliceFrom e n =>
+    (match eval cx env e with
+     | .error err => .error err
+     | .ok x => (match eval cx env n with | .error err => .error err | .ok y => pySlice false x y))
+  | .newList => .ok (.list [])
+  | .newDict => .ok (.dict [])
+  | .newLock => .ok (.lock false)
 def evalList (cx : Ctx) (env : Env) : List Expr → Except PyErr (List Val)
   | [] => .ok []
   | e :: es =>
@@ -358,17 +786,11 @@ def evalList (cx : Ctx) (env : Env) : List Expr → Except PyErr (List Val)
      | .ok v => (match evalList cx env es with | .error err => .error err | .ok vs => .ok (v :: vs)))
 end
 
-/-- How a statement (list) ends. -/
-inductive Res where
-  | next                     -- fell through to the next statement
-  | ret (v : Val)            -- `return v`
-  | exc (e : PyErr)          -- an exception is propagating
-  deriving Repr, Inhabited
-
 /-- `raise v` -/
 def raiseOf : Val → PyErr
   | .excInst n => excOf n
   | .excType n => excOf n
+  | .caught e => e
   | _ => .typeError
 
 /-- Is the propagating exception an instance of the class named `T`? -/
@@ -381,7 +803,10 @@ def catches (ty : Option String) (e : PyErr) : Bool :=
 mutual
 def execS (cx : Ctx) (env : Env) : Stmt → Env × Res
   | .pass => (env, .next)
-  | .assign x e => (match eval cx env e with | .ok v => ((x, v) :: env, .next) | .error err => (env, .exc err))
+  | .assign x e =>
+    (match eval cx env e with
+     | .ok v => if aliasOK cx e v then (assocSet env x v, .next) else (env, .exc (unsupported "a second name for a mutable object"))
+     | .error err => (env, .exc err))
   | .expr e => (match eval cx env e with | .ok _ => (env, .next) | .error err => (env, .exc err))
   | .ret e => (match eval cx env e with | .ok v => (env, .ret v) | .error err => (env, .exc err))
   | .raise e => (match eval cx env e with | .ok v => (env, .exc (raiseOf v)) | .error err => (env, .exc err))
@@ -393,6 +818,103 @@ def execS (cx : Ctx) (env : Env) : Stmt → Env × Res
     (match execL cx env body with
      | (env', .exc err) => execH cx env' err hs
      | r => r)
+  | .whileS c body => whileLoop (fun env => eval cx env c) (fun env => execL cx env body) cx.fuel env
+  | .forS x it body =>
+    (match eval cx env it with
+     | .error err => (env, .exc err)
+     | .ok v =>
+       (match iterItems v with
+        | none => (env, .exc .typeError)
+        | some items =>
+          if !v.mutable || it.isVar || it.makesNew then
+            forLoop (fun env v => assocSet env x v) (fun env => execL cx env body)
+              (fun env' => !v.mutable || !it.isVar || decide (eval cx env' it = .ok v)) items env
+          else (env, .exc (unsupported "iteration over a field that the loop could change"))))
+  | .brk => (env, .brk)
+  | .cont => (env, .cont)
+  | .fieldCall o f m args =>
+    (match evalList cx env args with
+     | .error err => (env, .exc err)
+     | .ok vs =>
+       (match getField env o f with
+        | .error err => (env, .exc err)
+        | .ok fv =>
+          (match mutCall fv m vs with
+           | .error err => (env, .exc err)
+           | .ok fv' => ((putField env o f fv').1, .next))))
+  | .setAttr o f e =>
+    (match eval cx env e with
+     | .error err => (env, .exc err)
+     | .ok v =>
+       (match v.toField with
+        | none => (env, .exc (unsupported "field value"))
+        | some fv =>
+          if aliasOK cx e v then
+            (match putField env o f fv with
+             | (env', true) => (env', .next)
+             | (_, false) => (env, .exc (unsupported "attribute of something else than self")))
+          else (env, .exc (unsupported "a second name for a mutable object"))))
+  | .setItem o f k v =>
+    (match eval cx env v with
+     | .error err => (env, .exc err)
+     | .ok vv =>
+       (match eval cx env k with
+        | .error err => (env, .exc err)
+        | .ok kv =>
+          (match getField env o f with
+           | .error err => (env, .exc err)
+           | .ok (.dict kvs) =>
+             (match kv, vv with
+              | .py k', .py v' =>
+                if hashable k' then ((putField env o f (.dict (dSet kvs k' v'))).1, .next)
+                else (env, .exc (unsupported "dict key"))
+              | _, _ => (env, .exc (unsupported "dict of objects")))
+           | .ok _ => (env, .exc (unsupported "item assignment")))))
+  | .delItem o f k =>
+    (match eval cx env k with
+     | .error err => (env, .exc err)
+     | .ok kv =>
+       (match getField env o f with
+        | .error err => (env, .exc err)
+        | .ok (.dict kvs) =>
+          (match kv with
+           | .py k' =>
+             if hashable k' then
+               (match dGet kvs k' with
+                | some _ => ((putField env o f (.dict (dDel kvs k'))).1, .next)
+                | none => (env, .exc .keyError))
+             else (env, .exc (unsupported "dict key"))
+           | _ => (env, .exc (unsupported "dict key")))
+        | .ok _ => (env, .exc (unsupported "item deletion"))))
+  | .varCall x m args =>
+    (match evalList cx env args with
+     | .error err => (env, .exc err)
+     | .ok vs =>
+       (match env.lookup x with
+        | none => (env, .exc (.other "UnboundLocalError"))
+        | some xv =>
+          (match xv.toField with
+           | none => (env, .exc (unsupported "statement method of an object"))
+           | some fv =>
+             (match mutCall fv m vs with
+              | .error err => (env, .exc err)
+              | .ok fv' => (assocSet env x fv'.toVal, .next)))))
+  | .setItemVar x k v =>
+    (match eval cx env v with
+     | .error err => (env, .exc err)
+     | .ok vv =>
+       (match eval cx env k with
+        | .error err => (env, .exc err)
+        | .ok kv =>
+          (match env.lookup x with
+           | none => (env, .exc (.other "UnboundLocalError"))
+           | some (.dict kvs) =>
+             (match kv, vv with
+              | .py k', .py v' =>
+                if hashable k' then (assocSet env x (.dict (dSet kvs k' v')), .next)
+                else (env, .exc (unsupported "dict key"))
+              | _, _ => (env, .exc (unsupported "dict of objects")))
+           | some _ => (env, .exc (unsupported "item assignment")))))
 def execL (cx : Ctx) (env : Env) : List Stmt → Env × Res
   | [] => (env, .next)
   | s :: ss =>
@@ -402,6 +924,8 @@ def execL (cx : Ctx) (env : Env) : List Stmt → Env × Res
 def execH (cx : Ctx) (env : Env) (err : PyErr) : List Handler → Env × Res
   | [] => (env, .exc err)
   | .mk ty body :: hs => if catches ty err then execL cx env body else execH cx env err hs
+  | .mkAs ty name body :: hs =>
+    if catches (some ty) err then execL cx (assocSet env name (.caught err)) body else execH cx env err hs
 end
 
 /-- Positional arguments, then keyword arguments by name, then the defaults (evaluated in the empty environment).
@@ -432,19 +956,39 @@ def bindArgs (cx : Ctx) : List (String × Option Expr) → List Val → List (St
               | some (.ok env) => some (.ok ((x, v) :: env))
               | r => r))))
 
+/-- The result of a call from the way its body ended. -/
+def resultOf : Res → Except PyErr Val
+  | .next => .ok (.py .none)
+  | .ret v => .ok v
+  | .exc e => .error e
+  | .brk => .error (unsupported "break outside a loop")
+  | .cont => .error (unsupported "continue outside a loop")
+  | .abort w => .error (unsupported w)
+
 /-- Call the function with positional and keyword arguments. Falling off the end returns `None`. -/
 def runKw (cx : Ctx) (f : Fun) (args : List Val) (kws : List (String × Val)) : Except PyErr Val :=
   match bindArgs cx f.params args kws with
   | none => .error .typeError
   | some (.error e) => .error e
   | some (.ok env) =>
-    (match (execL cx env f.body).2 with
-     | .next => .ok (.py .none)
-     | .ret v => .ok v
-     | .exc e => .error e)
+    resultOf (execL cx env f.body).2
 
 /-- Call the function with positional arguments. -/
 def run (cx : Ctx) (f : Fun) (args : List Val) : Except PyErr Val := runKw cx f args []
+
+/-- Call a method on the object `self` (bound to the first parameter): the object afterwards (`none`: the parameter no
+longer holds an object) and the result of the call. -/
+def runMeth (cx : Ctx) (f : Fun) (self : List (String × Field)) (args : List Val) :
+    Option (List (String × Field)) × Except PyErr Val :=
+  match bindArgs cx f.params (.obj self :: args) [] with
+  | none => (some self, .error .typeError)
+  | some (.error e) => (some self, .error e)
+  | some (.ok env) =>
+    let r := execL cx env f.body
+    ((match f.params with
+      | (s, _) :: _ => (match r.1.lookup s with | some (.obj fs) => some fs | _ => none)
+      | [] => none),
+     resultOf r.2)
 
 /-- Look a function up in a module given LATEST DEFINITION FIRST: its body sees the definitions before it. -/
 def callIn (parseInt : Str → Except PyErr Int) :
